@@ -137,6 +137,7 @@ class Index:
                     rel = os.path.relpath(p, self.root)
                     self.modules[rel] = ModuleInfo(p, rel)
         self.relocated = {}
+        self._bound = {}
         self.enums = {}
         self.enums_qual = {}
         amb = set()
@@ -229,6 +230,19 @@ class Index:
                 if len(fs) == 1:
                     self.relocated[spec] = fs[0].site
                     return fs[0]
+            if f is None:
+                # inherited from a base class of the package (a template method the subclasses specialise through overridden
+                # hooks): the base's function, *bound* to the subclass so that `self.<hook>()` resolves to the subclass's override
+                for b in self.bases_of(c):
+                    g = b.method(name, kind)
+                    if g is not None:
+                        key = (c.site, name, kind)
+                        if key not in self._bound:
+                            clone = FuncInfo(g.node, c, g.module)
+                            clone.inherited_from = g.site
+                            self._bound[key] = clone
+                        self.relocated[spec] = g.site
+                        return self._bound[key]
             if f is None:
                 raise AnchorMissing(f"method {spec!r} not found in {c.site}")
             return f
